@@ -1,11 +1,23 @@
 #!/bin/bash
-# Build the whole framework offline from files on disk: regenerate tables from /repo, build the
-# Lean library (model, proofs, table theorems) and the model driver, build the Rust harness.
+# Build the framework offline from files on disk: regenerate tables from /repo, build the Lean
+# model driver and the theorem modules of every claimed property, build the Rust harness.
 set -e
 cd /verif
 export CARGO_NET_OFFLINE=true
 mkdir -p .cache/work
 python3 tools/translate.py
-(cd lean && lake build)
+for t in tools/translate_c*.py; do [ -f "$t" ] && python3 "$t" || true; done
+TARGETS=$(python3 - <<'PY'
+import json, os
+m = json.load(open('/verif/MANIFEST.json'))
+ts = ['moyo_model']
+for c in m['checks']:
+    pid = c['property_id']
+    if os.path.exists(f'/verif/lean/Moyo/Props/{pid}.lean'):
+        ts.append(f'Moyo.Props.{pid}')
+print(' '.join(ts))
+PY
+)
+(cd lean && lake build $TARGETS)
 (cd harness && cargo build)
 echo "setup ok"
